@@ -74,9 +74,33 @@ func runReadMustHit(c *Ctx, r *RuleRun) {
 				continue
 			}
 			cm := canonCond(iff.Cond, true)
-			call := callTo(p, cm.X, same)
-			if call == nil || cm.Y != nil {
+			if cm.Y != nil {
 				continue
+			}
+			if call := callTo(p, cm.X, same); call == nil {
+				// the "found" answer of a wrapper of the package that narrows a lookup down to the same user key
+				ex, isEx := cm.X.(*ssa.Extract)
+				if !isEx || ex.Index != 1 {
+					continue
+				}
+				wc, isCall := ex.Tuple.(*ssa.Call)
+				if !isCall {
+					continue
+				}
+				h := wc.Call.StaticCallee()
+				if h == nil || h.Pkg != f.Pkg || !isEntryLookup(p, h) || len(h.Blocks) == 0 || len(callsTo(p, h, same)) == 0 || !sameKeyFilter(p, h, same, nil) {
+					continue
+				}
+				// a wrapper is handed the lookup's answer (an entry); a lookup of its own is judged where it tests
+				takesEntry := false
+				for _, pr := range h.Params {
+					if p.isModuleNamed(pr.Type()) == p.Named("types", "Entry") {
+						takesEntry = true
+					}
+				}
+				if !takesEntry {
+					continue
+				}
 			}
 			hitEdge := 0
 			if cm.Op == "false" {
@@ -889,10 +913,8 @@ func runConfKeepAll(c *Ctx, r *RuleRun) {
 		lp := lp
 		for b := range lp.body {
 			for _, ins := range b.Instrs {
-				if cl, ok := ins.(*ssa.Call); ok {
-					if bi, ok := cl.Call.Value.(*ssa.Builtin); ok && bi.Name() == "append" {
-						loop = &lp
-					}
+				if a.keepsRecord(ins) {
+					loop = &lp
 				}
 			}
 		}
@@ -907,14 +929,7 @@ func runConfKeepAll(c *Ctx, r *RuleRun) {
 		r.Hold(fn, "whole list visited", p.Pos(instrPos(loop.header.Instrs[len(loop.header.Instrs)-1])), "left only through its own condition")
 	}
 	// every iteration appends unless ts <= watermark
-	isKeep := func(i ssa.Instruction) bool {
-		cl, ok := i.(*ssa.Call)
-		if !ok {
-			return false
-		}
-		bi, ok := cl.Call.Value.(*ssa.Builtin)
-		return ok && bi.Name() == "append"
-	}
+	isKeep := a.keepsRecord
 	var body *ssa.BasicBlock
 	for _, s := range loop.header.Succs {
 		if loop.body[s] {
